@@ -185,8 +185,8 @@ def run(ctx):
         gates = L.gaussian_catalogue(d, rng=rng, size=ng)
         recs = explore(ctx, d, gates, depth)
         ctx.notes.setdefault("explorations", []).append({"d": d, "gates": [g["name"] + str(g["modes"]) for g in gates], "depth": depth, "states_exported": len(recs)})
-        if quick and len(recs) > 80:
-            recs = rng.sample(recs, 80)
+        if len(recs) > (80 if quick else 2000):
+            recs = rng.sample(recs, 80 if quick else 2000)
         perm = GR.xxpp_to_xpxp_perm(d)
         for rec in recs:
             names = [gates[i - 1]["name"] + str(gates[i - 1]["modes"]) for i in rec["hist"]]
